@@ -11,6 +11,7 @@ package main
 import (
 	"bufio"
 	"fmt"
+	"math"
 	"math/rand"
 	"os"
 	"time"
@@ -188,6 +189,25 @@ func chain(a, b, c *inst, delta int32) (line string, slow bool) {
 	}
 	go func() { conn.Close(); br.Stop() }()
 	return fmt.Sprintf("c11x %s %d %s %s %s\t%s %s %s", gen.Hex([]byte(topic)), delta, a, b, c, res[0], res[1], res[2]), time.Since(t0) > time.Second
+}
+
+// badSize: A's response carries the size prefix `size` instead of len(body)+4, B follows on the same Conn.
+//
+//	c11z <topic hex> <size> <A> <bodyA> <B> <bodyB>\t<resA> <resB>
+func badSize(a, b *inst, size int32) (line string, slow bool) {
+	sel := map[int16]int16{b.op.Key: b.v}
+	sel[a.op.Key] = a.v
+	t0 := time.Now()
+	conn, br := connfake.Start(topic, connfake.VersionTable(sel))
+	br.Push(a.op.Key, connfake.Resp{Body: a.body, Cut: -1, SizeSet: true, Size: size})
+	br.Push(b.op.Key, connfake.Resp{Body: b.body, Cut: -1})
+	resA, _ := guarded(conn, a)
+	resB := "hang"
+	if resA != "hang" {
+		resB, _ = guarded(conn, b)
+	}
+	go func() { conn.Close(); br.Stop() }()
+	return fmt.Sprintf("c11z %s %d %s %s\t%s %s", gen.Hex([]byte(topic)), size, a, b, resA, resB), time.Since(t0) > time.Second
 }
 
 var codes = []int16{1, 3, 5, 6, 7, 9, 14, 15, 16, 19, 20, 22, 25, 27, 29, 36, 41, -1, 87, 32767, -32768}
@@ -412,6 +432,33 @@ func main() {
 			a.op.Build(v, w, r, a.sh)
 			a.body = w.B
 			emit(a, follower(a))
+		}
+	}
+	// a size prefix below 4 (the correlation id alone takes 4 bytes), negative ones included: a framing error, A and
+	// every later operation fail — promptly; and prefixes a few bytes off the real length: model and code must agree
+	// on what happens to the stream.
+	for _, op := range connfake.Ops {
+		if nslow >= 5 {
+			break
+		}
+		for _, v := range op.Versions {
+			a, _ := build(r, op, v, nil, false)
+			real := int32(len(a.body) + 4)
+			sizes := []int32{math.MinInt32, -1, 0, 3, 4, real - 1, real + 2}
+			if !thorough {
+				sizes = []int32{sizes[r.Intn(4)], sizes[4+r.Intn(3)]}
+			}
+			for _, size := range sizes {
+				if op.Name == "fetch" && size > 4 {
+					continue // the message-set reader runs to the deadline on a prefix that promises more
+				}
+				l, slow := badSize(a, follower(a), size)
+				fmt.Fprintln(out, l)
+				ncases++
+				if slow {
+					nslow++
+				}
+			}
 		}
 	}
 	// a response nobody asked for (foreign correlation id) is a framing error that does NOT close the Conn
